@@ -44,6 +44,8 @@ WRITERS = [
     '#0 == "k" -> advance(1)',
     'collect(#1)',
     '#0 == "k" -> replace(#1, "r")',
+    'append("cp", #5)',
+    '#0 == "n" -> replace(1, #5)',
 ]
 
 
